@@ -1,5 +1,6 @@
 """Per-property configuration for ./check (suites, builds, non-triviality rules, trusted base)."""
 import re
+import c20
 
 TRUSTED_BASE = [
     "Coq 8.16.1 kernel (coqc), incl. its vm_compute conversion (Examples, finite C20 theorem, cases.v evaluation); no native_compute; thorough tier re-checks with coqchk",
@@ -60,7 +61,29 @@ NONTRIVIAL.update({
     "prefix": lambda c: all(len(f) > 1 for f in hexfields(c)),
 })
 
+NONTRIVIAL.update({
+    "slice": lambda c: len(hexfields(c)[-1]) > 3,
+})
+
 PROPERTIES = {
+    "C20": {
+        "pre_proof": c20.pre_proof,
+        "special": c20.special,
+        "exhaustive": True,
+        "coqchk": True,
+        "runs": [{"suite": s_, "variant": v_, "oracle_any": v_ == "nostd", "cross_variant": True}
+                 for s_ in ("token", "parse", "tokens", "slice", "prefix") for v_ in ("nostd", "full")],
+        "technique": "Coq theorem over a model REGENERATED from Cargo.toml + cfg gates on every run (finite, all 256 subsets, vm_compute lifted by forallb_forall) + exhaustive cargo check sweep as the judge; "
+                     "no_std behaviour: differential correspondence of the core suites against a harness linked with default-features = false",
+        "level_text": "(a) The feature model is REGENERATED from /repo on every run by tools/featgen.py ([features] table incl. the 'serde/std' implication, optional dependencies, every crate-path / gated-item reference with the "
+                      "conjunction of cfg gates around it) and the theorem 'for all 256 feature subsets, closed under the declared implications, every reference is compiled out or names something that exists' is re-proved "
+                      "(finite domain enumerated completely; the bound is in the statement). The translator is approximate and NOT trusted for the verdict: rustc is the judge - cargo check --lib on all 256 subsets in both tiers; "
+                      "a subset rustc rejects is the failing input (replay = that command). (b) The core suites (token, parse, tokens, slice, prefix) are run against a harness linked with jsonptr default-features = false "
+                      "(no_std + alloc) and against the default build; both agree with the same feature-free model on the same case stream.",
+        "rule": "all 256 subsets of {std, serde, json, toml, assign, resolve, delete, miette} through cargo check --lib --no-default-features (exhaustive); plus the five core suites under the no_std and the default build; "
+                "non-trivial subsets = the 255 non-empty ones; suites as for C03/C02/C04/C12/C13",
+        "trusted_extra": ["cargo + rustc 1.95 (the judge of 'compiles' on all 256 subsets); tools/featgen.py only for the explanatory theorem, not for the verdict"],
+    },
     "C11": {
         "runs": [{"suite": "buf"}],
         "level_text": "Proved in Coq for every valid start pointer and every finite history of the seven mutators with arbitrary arguments (indices over all of N): the implementation-level models splice bytes as the code does "
